@@ -22,7 +22,8 @@ carried between calls, feature combinations, configuration-dependent paths; roun
 statement into clauses, pick clauses no earlier change had attacked and break them the way maintenance does (memoisation keyed
 by too little, pooling, early exits, refactorings, over-broad hardening, swapped decoders); round 5 (`r5`) gave the agent a catalogue of mistake classes from
 studies of real Go code (slice aliasing, range / shadowing slips, integer conversions, byte vs rune, operator slips, switch
-slips, nil vs empty, comparators, map order, early returns) and asked for classes not used before. `/verif/regress_seeded.sh` re-applies every kept
+slips, nil vs empty, comparators, map order, early returns) and asked for classes not used before; round 6 (`r6`) asked for an inventory of the public routes to the behaviour
+(constructors, options, modes, alternative entry points, optional members) and a mistake on a route an ordinary test is least likely to travel. `/verif/regress_seeded.sh` re-applies every kept
 change and re-runs the quick tier of its property, so a later edit of a check cannot silently lose one.
 
 **%d changes kept; %d were missed at first and led to a stronger check** (all are caught now):
@@ -49,6 +50,10 @@ What the misses had in common, and the general lesson applied across checks:
   (negative and zero times, 2^63 neighbours, lengths beyond 2^8 and 2^16), largest accepted documents;
 * *only the shipped configuration* (four key types, one hash algorithm per chain, default validators): all five key types,
   algorithm migration inside a chain, hostile request-time validators, windows in every combination;
+* *only the main entry point was asked* (round 6): the same question is now put by every public route - batch and non-batch
+  parsing, ParseOperation, the anchored form, zero-value and constructed validators, delta validation under several
+  configurations, appliers written as struct literals, NewJWS with its header and serialization options, re-spelled and
+  type-less requests to the document handler;
 * *a hang ended as "inconclusive"* (C20 recursive read lock): lock-ups of the registries are detected inside the case with the
   goroutine dump as witness, and a C20 case timeout is a violation.
 
